@@ -630,6 +630,54 @@ def large_column_scenarios(chk, rs, t):
     return n
 
 
+def py_geometry(c):
+    """Geometry(c) of spec/Solver.tla in Python, for configurations larger than TLC enumerates (halo in units, -1 = None)"""
+    h = c["halo"] if c["halo"] >= 0 else max(c["nx"] * c["ax"], c["ny"] * c["ay"])
+    px, py = h // c["ax"], h // c["ay"]
+    nxe, nye = c["nx"] + 2 * px, c["ny"] + 2 * py
+    big = c["mx"] > nxe or c["my"] > nye
+    nlx, nly = (nxe, nye) if big else (c["mx"], c["my"])
+    return {"halo": h, "px": px, "py": py, "nxe": nxe, "nye": nye, "clamped": big, "nlx": nlx, "nly": nly,
+            "dlx": (nxe - nlx) // 2, "dly": (nye - nly) // 2, "nmodes": nlx * nly - 1}
+
+
+LARGE_GRIDS = [  # (nx, ny, ax, ay, halo units, mx, my): more than 8192 retained modes, counts that are not round numbers
+    (120, 104, 1, 1, 0, 512, 512),      # clamped to the grid: 12 480 modes
+    (131, 67, 2, 3, 0, 512, 512),       # odd sizes: 8 777 modes, no Nyquist component
+    (96, 90, 1, 1, 0, 96, 88),          # truncated in y: 8 448 modes
+    (100, 84, 3, 2, 6, 104, 90),        # with a halo (2 and 3 cells), truncated: 9 360 modes
+]
+
+
+def large_grid_scenarios(chk, rs, prop, replay, t):
+    """The families' identities on LARGE horizontal grids.  The bounded model enumerates padded sizes up to 10 and the
+    identities do not depend on the size; an implementation may (blocking, batching, size thresholds).  The same replay
+    functions are run on configurations far beyond the bounds, with the geometry computed by the specification's rule."""
+    n = 0
+    for (nx, ny, ax, ay, halo, mx, my) in (LARGE_GRIDS if t == "thorough" else LARGE_GRIDS[:3] + LARGE_GRIDS[3:][: 1 if prop in ("C03", "C06", "C11") else 0]):
+        for fp in (False, True):
+            for an in ((False,) if t == "quick" else (False, True)):
+                c = {"nx": nx, "ny": ny, "ax": ax, "ay": ay, "halo": halo, "mx": mx, "my": my, "xm": 0, "ym": 0, "fp": fp, "an": an, "nz": 3,
+                     "lv": [2], "err": "none", "shape": [1, ny, nx], "src": ["rnd", 1, 0], "bg": 0, "tab": 1, "flip": [1, 1, False], "prec": "double", "emb": [0, 0, 0, 0]}
+                if fp:
+                    c["xm"], c["ym"] = (nx // 3) * ax, (ny // 2) * ay
+                g = py_geometry(c)
+                c["geom"] = g
+                c["nyqx"] = sorted({(g["nlx"] // 2) % g["nxe"], (g["nxe"] - g["nlx"] // 2) % g["nxe"]}) if g["nlx"] % 2 == 0 else []
+                c["nyqy"] = sorted({(g["nly"] // 2) % g["nye"], (g["nye"] - g["nly"] // 2) % g["nye"]}) if g["nly"] % 2 == 0 else []
+                if prop == "C07" and fp:
+                    continue        # the mirror / axis-swap identities are stated for the unshifted problem
+                before = len(chk.violations)
+                try:
+                    replay(chk, rs, c, VARIANTS_QUICK[:1])
+                except KeyError as ex:
+                    raise MachineryError("large grid scenario lacks a field the replay needs: %s" % ex)
+                n += 1
+                if len(chk.violations) > before:
+                    chk.violations[-1]["what"] = "LARGE GRID %dx%d (%d modes): " % (nx, ny, g["nlx"] * g["nly"]) + chk.violations[-1]["what"]
+    return n
+
+
 # ------------------------------------------------------------------------- C11 shape
 
 
@@ -839,6 +887,8 @@ def main(prop, families=None):
     )
     if prop == "C10":
         chk.extra["large_column_scenarios"] = large_column_scenarios(chk, rs, t)
+    if prop in ("C02", "C03", "C04", "C06", "C07"):
+        chk.extra["large_grid_scenarios"] = large_grid_scenarios(chk, rs, prop, REPLAYS[prop], t)
     validate_traces(chk, prop, rs, tracefile, limit=4000 if t == "quick" else 40000)
     if t == "thorough" and prop == "C11":
         # the repository's own tests, recorded with the hooks on (sizes far beyond the bounded model)
